@@ -235,7 +235,7 @@ pub fn body(case: &Case, out: &Shared) {
                             let class = if al.len() == 1 && writes.iter().any(|w| w.ok && w.items.iter().any(|(kk, _)| kk == k)) { "acknowledged-write-lost" } else { "unexplained-value" };
                             push_finding(
                                 out,
-                                Finding::new(&["C08"], class, "", format!("{}: after the fault was disarmed and the database reopened, key {} = {} but only {:?} can be explained by the writes that returned Ok plus writes that returned Err", fault_label(&fs), show_key(k), show_opt(&v), al.iter().map(show_opt).collect::<Vec<_>>()), None),
+                                Finding::new(&["C08"], class, &format!("{:?}|{}", mode.unwrap_or(FaultMode::Transient), site(&fs)), format!("{}: after the fault was disarmed and the database reopened, key {} = {} but only {:?} can be explained by the writes that returned Ok plus writes that returned Err", fault_label(&fs), show_key(k), show_opt(&v), al.iter().map(show_opt).collect::<Vec<_>>()), None),
                             );
                             break;
                         }
@@ -249,7 +249,9 @@ pub fn body(case: &Case, out: &Shared) {
                         let mut vis = 0;
                         let mut hid = 0;
                         for (k, v) in &w.items {
-                            if later_touch(k) {
+                            // the empty value is not attributable to one write (unique tags need
+                            // at least one byte), so it cannot witness visibility
+                            if later_touch(k) || v.as_ref().map(|v| v.is_empty()).unwrap_or(true) {
                                 continue;
                             }
                             if got.get(k) == v.as_ref() {
